@@ -88,6 +88,8 @@ def run(ctx):
     ctx.rule('C11.d', 'equality fields are written: every field compared by equality is read by the JSON writer; '
              'hash fields are a subset of equality fields', floor=100, style='COH')
 
+    ctx.rule('C11.d3', 'lossless writer values: the value written under a JSON key is never replaced by a constant depending on another '
+             'field (conditional expression / short-circuit with a constant arm)', floor=150, style='COH')
     registered = {}
     all_keys = {}
     all_entries = []
@@ -222,6 +224,13 @@ def _class_rules(ctx, repo, ci: ClassInfo):
         ctx.ob('C11.c', f'{ci.qual}:keys-accepted', not extra,
                f'writer emits key(s) {extra} that _from_json_dict_ does not accept' if extra else '',
                reader[0].mod.rel, rfn.lineno, construct=ci.qual)
+        if rkw:
+            kwname = rfn.args.kwarg.arg
+            kw_used = any(isinstance(n, ast.Name) and n.id == kwname and isinstance(n.ctx, ast.Load) for n in ast.walk(rfn))
+            dropped = sorted(k for k in keys_always if k not in rparams) if not kw_used else []
+            ctx.ob('C11.c', f'{ci.qual}:kwargs-dropped', not dropped,
+                   f'_from_json_dict_ swallows written key(s) {dropped} in **{kwname} and never looks at them: they are lost on read' if dropped else '',
+                   reader[0].mod.rel, rfn.lineno, construct=ci.qual)
         d = func_param_defaults(rfn)
         req = sorted(p for p in rparams if d.get(p) is None and p not in keys_always)
         ctx.ob('C11.c', f'{ci.qual}:required-written', not req,
@@ -232,6 +241,21 @@ def _class_rules(ctx, repo, ci: ClassInfo):
         ctx.ob('C11.c', f'{ci.qual}:params-used', not unused,
                f'_from_json_dict_ ignores written key(s) {unused}' if unused else '',
                reader[0].mod.rel, rfn.lineno, construct=ci.qual)
+    # ---- C11.d3 lossless values
+    if jk['fn'] is not None and jk['owner'] is ci:
+        for dn in [n for n in ast.walk(jk['fn']) if isinstance(n, ast.Dict)]:
+            for k, v in zip(dn.keys, dn.values):
+                if k is None or not isinstance(k, ast.Constant):
+                    continue
+                lossy = None
+                for x in ast.walk(v):
+                    if isinstance(x, ast.IfExp) and (isinstance(x.body, ast.Constant) or isinstance(x.orelse, ast.Constant)):
+                        lossy = x
+                    if isinstance(x, ast.BoolOp) and any(isinstance(y, ast.Constant) for y in x.values):
+                        lossy = x
+                ctx.ob('C11.d3', f'{ci.qual}:{k.value}', lossy is None,
+                       '' if lossy is None else f'JSON value of `{k.value}` is `{ast.unparse(v)[:80]}`: under `{ast.unparse(lossy.test) if isinstance(lossy, ast.IfExp) else "the short-circuit"}` '
+                       'a constant is written instead of the field, so distinct values serialise identically', ci.mod.rel, v.lineno, construct=f'{ci.qual}:{k.value}')
     # ---- C11.d
     eq = coh.eq_fields(repo, ci)
     if eq is not None and jk['fn'] is not None:
